@@ -14,6 +14,8 @@ def step (line : String) : String :=
   | "eparse" :: args => runEparse args
   | "req" :: args => runReq args
   | "dnf" :: args => runDnf args
+  | "iand" :: args => runIand args
+  | "cmp" :: args => runCmp args
   | "show" :: args => runShow args
   | "expand" :: args => runExpand args
   | "urlhelpers" :: args => runUrlHelpers args
